@@ -1,5 +1,5 @@
 (* C04 -- the fully-decrypted NCCH view is one consistent image of the container. *)
-From Pyctr Require Import Base.Prelude Base.ListExt Base.PySlice Model.NcchFull Proofs.NcchFullProofs.
+From Pyctr Require Import Base.Prelude Base.ListExt Base.PySlice Model.NcchFull Proofs.NcchFullProofs Proofs.NcchAvailProofs.
 
 (* For every well-formed region table (0x200-aligned, pairwise disjoint sections inside the declared content size)
    and EVERY offset and length inside the container, the chunk-classifying, dictionary-grouping, head/tail-trimming
@@ -9,6 +9,14 @@ Theorem C04_fulldec_read : forall N, wf N -> forall off size,
   0 <= off -> 0 <= size -> off + size <= n_content N ->
   fulldec_read N off size = slice (image N) off size.
 Proof. exact fulldec_read_ok. Qed.
+
+(* The reader as it is since the repair for C19 cuts every request down to what the file holds before it walks over media units.
+   On a file that holds everything its header declares this changes nothing: *)
+Theorem C04_fulldec_read_file_holds : forall N, wf N -> forall avail off size,
+  n_content N <= avail -> 0 <= off -> 0 <= size -> off + size <= n_content N ->
+  fulldec_read_avail N avail off size = slice (image N) off size.
+Proof. exact fulldec_read_avail_ok. Qed.
+Print Assumptions C04_fulldec_read_file_holds.
 
 (* and that image has exactly the container's declared size *)
 Theorem C04_image_size : forall N, wf N -> len (image N) = n_content N.
